@@ -314,3 +314,9 @@ def _(ctx):
                     ctx.prove(tag, sym.pc, unchanged)
                 else:
                     ctx.prove(tag, sym.pc, z3.If(sc > 0, replaced, unchanged))
+
+
+def fidelity(tier, seed):
+    """A-FRONT guard: the scalar functions of the files under contract, interpreter (float mode) vs compiled real code, bit for bit"""
+    from gm2v import fidelity as _fid
+    return _fid.scalar_guard(['src/gm2_mf.cpp'], ['src/gm2_numerics.cpp'], n_calls=25 if tier == 'quick' else 200, seed=seed)
